@@ -26,7 +26,8 @@ RULE = ("valid definitions (1-3 states, 1-3 controls, 1-3 calibrations, 1-2 sens
         "kinds) x every single fault of the classes {set overlap x3, update missing/extra/for-non-state, calibration "
         "map missing/extra/wrong key/map without calibration, process noise one missing/all missing/negative/for a "
         "state/for undeclared symbol/keyed by str, sensor model depends on control/undeclared symbol, sensor noise "
-        "sensor missing/extra sensor/reading missing/extra reading/wrong reading name} at every applicable position "
+        "sensor missing/extra sensor/reading missing/extra reading/wrong reading name; wrong keys also as fragments "
+        "of the right name} at every applicable position "
         "(pairs of faults of different classes in the thorough tier); observed: exception or return of ui.Model, "
         "python.compile, python.compile_ekf, cpp.compile, cpp.compile_ekf and existence of the C++ output files; "
         "non-trivial = injected fault case (not the fault-free baseline); distinct = (definition, fault id)")
